@@ -9,6 +9,9 @@ MASKED_BACKENDS = ['asm', 'c64', 'c32']   # dxor/generic reuse one of these word
 H = {
     'aead': dict(name='aead', sources=['h_aead.c', 'trng_tape.c']),
     'perm': dict(name='perm', sources=['h_perm.c']),
+    # same harnesses linked with the library's REAL random source (deterministic getrandom underneath)
+    'aead-realtrng': dict(name='aead-realtrng', sources=['h_aead.c', 'getrandom_tape.c']),
+    'cpp-realtrng': dict(name='cpp-realtrng', sources=['h_cpp.cpp', 'getrandom_tape.c'], cxx=True),
     'sym': dict(name='sym', sources=['h_sym.c']),
     'wipe': dict(name='wipe', sources=['h_wipe.cpp', 'trng_tape.c'], cxx=True, extra_flags=['-O3']),
     'prng': dict(name='prng', sources=['h_prng.c']),
